@@ -56,6 +56,9 @@ structure Sub where
   unsubscribed : Bool := false  -- ghost: the entry was removed by an unsubscribe call
   orphaned : Bool := false      -- ghost: the entry was removed by the drop of a clone that was not the last one
                                 --        (never set with the current drop rule: `noOrphan_of_fixed`)
+  displaced : Bool := false     -- ghost: the entry was overwritten by the accept of another subscription that
+                                --        was given the same id while this one was still registered (only an id
+                                --        provider that hands out ids still in use does that)
   handlerDone : Bool := false   -- the handler future has returned
   ret : Ret := .none
   taskDone : Bool := false      -- the task spawned by the subscribe callback has finished
@@ -75,12 +78,12 @@ structure Conn where
 
 structure State where
   conns : List Conn
-  subs : List Sub := []
-  nextId : Nat := 1          -- the id provider (harness: counter)
+  subs : List Sub := []      -- one record per subscribe call that got a permit; the index is the
+                             -- identity ("generation") of the subscription, `subId` is only its wire id
   deriving DecidableEq, Repr
 
 inductive Op where
-  | subscribe (c m rid : Nat)
+  | subscribe (c m rid sid : Nat)   -- `sid` = what the id provider hands out for this call (external)
   | accept (k : Nat)
   | reject (k : Nat) (code : Int)
   | dropPending (k : Nat)
@@ -142,7 +145,7 @@ def putConn (st : State) (c : Nat) (cn : Conn) : State :=
 /-- does the subscription hold a permit of its connection? -/
 def Sub.holds (s : Sub) : Bool := s.phase == .pending || s.clones > 0
 
-def doSubscribe (st : State) (c m rid : Nat) : State × Out :=
+def doSubscribe (st : State) (c m rid sid : Nat) : State × Out :=
   match st.conns[c]? with
   | none => (st, .bad)
   | some cn =>
@@ -151,8 +154,15 @@ def doSubscribe (st : State) (c m rid : Nat) : State × Out :=
       if cn.hasRoom then (putConn st c (cn.push (.err rid tooManyCode)), .refused) else (st, .blocked)
     else
       ({ conns := st.conns.set c { cn with permitsFree := cn.permitsFree - 1 },
-         subs := st.subs ++ [{ conn := c, meth := m, subId := st.nextId, reqId := rid }],
-         nextId := st.nextId + 1 }, .pending st.nextId)
+         subs := st.subs ++ [{ conn := c, meth := m, subId := sid, reqId := rid }] }, .pending sid)
+
+/-- the key of the method's `Subscribers` table: (connection id, subscription id) -/
+def sameKey (c m x : Nat) (s : Sub) : Bool := s.conn == c && s.meth == m && s.subId == x
+
+/-- `HashMap::insert` under an occupied key drops the previous value — the previous owner's liveness
+receiver — so the previous owner sees itself unsubscribed (subscription.rs `accept`: `insert`) -/
+def displace (c m x : Nat) (s : Sub) : Sub :=
+  if sameKey c m x s && s.inTable then { s with inTable := false, displaced := true } else s
 
 def doAccept (st : State) (k : Nat) : State × Out :=
   match lookup st k with
@@ -163,7 +173,8 @@ def doAccept (st : State) (k : Nat) : State × Out :=
       (put st k { s with phase := .acceptFailed, taskDone := true } cn.release, .err)
     else if !cn.hasRoom then (st, .blocked)
     else
-      (put st k { s with phase := .accepted, clones := 1, inTable := true } (cn.push (.resp s.reqId s.subId)), .ok)
+      (put { st with subs := st.subs.map (displace s.conn s.meth s.subId) } k
+        { s with phase := .accepted, clones := 1, inTable := true } (cn.push (.resp s.reqId s.subId)), .ok)
 
 /-- `reject` and "dropped without accept/reject" differ only in the error code and final phase -/
 def doRefuse (st : State) (k : Nat) (code : Int) (ph : Phase) : State × Out :=
@@ -192,6 +203,11 @@ def doClone (st : State) (k : Nat) : State × Out :=
     if s.clones == 0 then (st, .nosink)
     else (put st k { s with clones := s.clones + 1 } cn, .ok)
 
+/-- Drop of one sink handle.  The guard shared by the handles consults ITS OWN liveness flag
+(`!self.unsubscribe.is_unsubscribed()` ⇔ this record's `inTable`): it removes the entry under its key
+only while that entry is still its own.  Only record `k` changes — an entry under the same
+(connection, id) key that belongs to a newer subscription (id re-used after an unsubscribe) is
+never touched, however late the old handler lets go of its sink. -/
 def doDropSink (st : State) (k : Nat) : State × Out :=
   match lookup st k with
   | none => (st, .bad)
@@ -243,8 +259,7 @@ def findIdx (p : Sub → Bool) : List Sub → Option Nat
   | [] => none
   | s :: r => if p s then some 0 else (findIdx p r).map (· + 1)
 
-def tableKey (c m x : Nat) (s : Sub) : Bool :=
-  s.conn == c && s.meth == m && s.subId == x && s.inTable
+def tableKey (c m x : Nat) (s : Sub) : Bool := sameKey c m x s && s.inTable
 
 def doUnsubscribe (st : State) (c m x rid : Nat) : State × Out :=
   match st.conns[c]? with
@@ -291,7 +306,7 @@ def doWriter (st : State) (c : Nat) : State × Out :=
       | f :: q => (putConn st c { cn with queue := q, wire := cn.wire ++ [f] }, .frame f)
 
 def step (st : State) : Op → State × Out
-  | .subscribe c m rid => doSubscribe st c m rid
+  | .subscribe c m rid sid => doSubscribe st c m rid sid
   | .accept k => doAccept st k
   | .reject k code => doRefuse st k code .rejected
   | .dropPending k => doRefuse st k internalCode .dropped
